@@ -27,12 +27,6 @@ def leafE : X.Expr → Bool
 theorem leaf_pure (e : X.Expr) (h : leafE e = true) : pureE e = true := by
   cases e <;> simp [leafE, pureE] at h ⊢
 
-/-- The system-call id `ConstProp` finds for a called name (`-1`: none, a user call). -/
-def sysOf (ρ : String → Option Word) (f : String) : Int :=
-  match ρ f with
-  | some w => w.toInt
-  | none => -1
-
 mutual
 /-- `ConstProp` on the statements of stage (3). -/
 def annotS (ρ : String → Option Word) : X.Stmt → AStmt
